@@ -73,3 +73,16 @@ func SpecUeOf(supi string) *ChfUe { return nil }
 //@ func InitChfContext [C20]
 //@   requires context != nil && factory.SpecValidated(factory.ChfConfig)
 //@   modifies obj(context)
+
+// ---- OAuth2 (C13) ----------------------------------------------------------------------------------
+
+// ghost: the bearer token was handed to oauth.VerifyOAuth, and its verdict (written by the assumed contract)
+var ghostTokenVerified bool
+var ghostTokenRejected bool
+
+// When the NRF declared OAuth2 mandatory the token is verified and the verdict is returned unchanged;
+// only when it is not mandatory is the request let through without verification.
+//@ func (*CHFContext).AuthorizationCheck [C13]
+//@   requires c != nil && !ghostTokenVerified
+//@   ensures c.OAuth2Required ==> ghostTokenVerified && (result != nil) == ghostTokenRejected
+//@   ensures !c.OAuth2Required ==> result == nil && !ghostTokenVerified
